@@ -1391,6 +1391,9 @@ static void*
 _rpmalloc_allocate_huge(heap_t* heap, size_t size) {
     rpmalloc_assert(heap, "No thread heap");
     _rpmalloc_heap_cache_adopt_deferred(heap, 0);
+    //Refuse requests for which size + header (rounded up to a page) does not fit in size_t
+    if (size > ((size_t)-1) - SPAN_HEADER_SIZE - _memory_page_size)
+        return 0;
     size += SPAN_HEADER_SIZE;
     size_t num_pages = size >> _memory_page_size_shift;
     if (size & (_memory_page_size - 1))
